@@ -3,20 +3,21 @@ import Verif.Model.EAB
   C20 — ACME external account binding keys bind once, to the key that proved them.
 
   Property theorems about `Verif.EAB` (model of acme/api/eab.go, acme/api/account.go NewAccount,
-  acme/account.go BindTo/AlreadyBound, acme/db/nosql/eab.go; tied to the code by the C20
-  correspondence stages `hist` and `conc`).
+  acme/account.go BindTo/AlreadyBound, acme/db/nosql/eab.go, the account-level policy gate of
+  acme/api/order.go NewOrder; tied to the code by the C20 stages `hist`, `conc`, `bindonce`, `policy`, `order`).
 
   * `account_only_if`        — the full conjunction behind every account created under RequireEAB
   * `created_spends_key`     — a creation through key k leaves k bound to that account, secret erased
   * `bound_key_refused`      — no request creates an account through a bound key
-  * `bind_once_seq`          — every *sequential* history creates ≤ 1 account per key; afterwards spent
-  * `bind_once_conc_refuted` — the all-interleavings statement is FALSE as coded (D11): schedule
-                               validate₁ validate₂ create₁ create₂ update₁ update₂
-  * `bind_once_conc_partial` — it holds for schedules in which requests do not overlap
-  * `bind_once_conc_serial`  — … for any number of requests run one after the other in any order
+  * `bind_once_seq`          — every sequential history creates ≤ 1 account per key; afterwards spent
+  * `bind_once_conc`         — ANY number of requests, ANY interleaving of their steps (code after fix 1f3b0b9):
+                               ≤ 1 request answered 201 per key, the key record names exactly that account,
+                               and once all are answered at most one ACTIVE account was stored for the key — that one
+  * `keyInv_step`            — the invariant behind it, preserved by every step of every request
+  * `interleavings_bind_once`— (table, `decide`) all 70 interleavings of the witness pair
   * `policy_limits_orders`   — the policy attached to a key limits every order of the account bound to it
-  * `overlap_always_double`  — (table, `decide`) for the witness pair every one of the 18 overlapping
-                               schedules creates two accounts; the 2 serial ones create one
+  * `steps_cover_calls`      — (table) the model's steps are the store calls of one request in source order
+  * historic `example`s      — D11 before 1f3b0b9: the second update replaced the first binding
 -/
 namespace Verif.EAB
 
@@ -103,13 +104,18 @@ theorem stepStart_not_created {st : State} {r : Req} {a v : Nat} : stepStart st 
   unfold stepStart
   repeat' (split <;> try simp)
 
+theorem stepUpdate_success {st : State} {r : Req} {k : EKey} {acc : Nat}
+    (hb : k.bound = false) (hg : getKey st k.id = some k) (hp : k.prov = r.prov) :
+    stepUpdate st r k acc = ({ st with keys := setKey st.keys (bindTo k acc) }, .inl (.created acc k.id)) := by
+  simp [stepUpdate, hb, hg, hp]
+
 /-- Shape of every successful creation by a request run alone. -/
 theorem handle_created {st st' : State} {r : Req} {acc via : Nat}
     (h : handle st r = (st', .created acc via)) :
     r.payloadOk = true ∧ acctOfKey st r.outerKey = none ∧ r.onlyExisting = false ∧ acc = st.next ∧
-    ((validateEAB st r = .ok none ∧ via = 0 ∧ st' = addAcct st r.outerKey) ∨
+    ((validateEAB st r = .ok none ∧ via = 0 ∧ st' = addAcct st r.outerKey 0) ∨
      (∃ k, validateEAB st r = .ok (some k) ∧ via = k.id ∧
-        st' = { addAcct st r.outerKey with keys := setKey st.keys (bindTo k acc) })) := by
+        st' = { addAcct st r.outerKey k.id with keys := setKey st.keys (bindTo k acc) })) := by
   unfold handle at h
   cases h1 : stepStart st r with
   | inl x =>
@@ -123,12 +129,13 @@ theorem handle_created {st st' : State} {r : Req} {acc via : Nat}
       simp at h
       refine ⟨p1, p2, p3, h.2.1.symm, .inl ⟨p4, h.2.2.symm, h.1.symm⟩⟩
     | some k =>
-      simp only [stepUpdate] at h
       have ⟨_, b, hb⟩ := validateEAB_some p4
       have hid := getKey_id hb.stored
-      have hg : getKey (addAcct st r.outerKey) k.id = some k := by
+      have hg : getKey (addAcct st r.outerKey k.id) k.id = some k := by
         simp only [getKey, addAcct]; rw [hid]; exact hb.stored
-      simp [hb.unbound, hg, hb.thisProv] at h
+      simp only [] at h
+      rw [stepUpdate_success hb.unbound hg hb.thisProv] at h
+      simp at h
       refine ⟨p1, p2, p3, h.2.1.symm, .inr ⟨k, p4, h.2.2.symm, ?_⟩⟩
       rw [← h.1, ← h.2.1]
       simp [addAcct]
@@ -218,11 +225,12 @@ theorem stepCreate_keys (st : State) (r : Req) (k : Option EKey) : (stepCreate s
   · split <;> rfl
 
 theorem stepUpdate_cases (st : State) (r : Req) (k : EKey) (acc : Nat) :
-    (∃ e, stepUpdate st r k acc = (st, .err e)) ∨
-    stepUpdate st r k acc = ({ st with keys := setKey st.keys (bindTo k acc) }, .created acc k.id) := by
+    (∃ e, stepUpdate st r k acc = (st, .inl (.err e))) ∨
+    (∃ e, stepUpdate st r k acc = (st, .inr (acc, e))) ∨
+    stepUpdate st r k acc = ({ st with keys := setKey st.keys (bindTo k acc) }, .inl (.created acc k.id)) := by
   unfold stepUpdate
   repeat' split
-  all_goals first | exact .inl ⟨_, rfl⟩ | exact .inr rfl
+  all_goals first | exact .inl ⟨_, rfl⟩ | exact .inr (.inl ⟨_, rfl⟩) | exact .inr (.inr rfl)
 
 /-- a request that does not end in a creation leaves the key store alone -/
 theorem handle_keys {st st' : State} {r : Req} {x : Resp} (h : handle st r = (st', x)) :
@@ -241,8 +249,9 @@ theorem handle_keys {st st' : State} {r : Req} {x : Resp} (h : handle st r = (st
       | inr p =>
         obtain ⟨k', acc⟩ := p
         simp only [] at h
-        rcases stepUpdate_cases s r k' acc with ⟨e, he⟩ | he
+        rcases stepUpdate_cases s r k' acc with ⟨e, he⟩ | ⟨e, he⟩ | he
         · rw [he] at h; simp at h; left; rw [← h.1]; exact hk
+        · rw [he] at h; simp [stepUndo] at h; left; rw [← h.1]; exact hk
         · rw [he] at h; simp at h; right; exact ⟨acc, k'.id, h.2.symm⟩
 
 /-- one request changes a stored key only by spending it -/
@@ -317,359 +326,517 @@ theorem bind_once_seq (k : Nat) (hk0 : k ≠ 0) (reqs : List Req) (st : State) :
 example : countVia 7 (runHist exState [exReq, { exReq with outerKey := 42, binding := some { exBinding with payloadKey := some 42 } }, exReq]).2 = 1 := by
   decide
 
-/-! ## 3. bind once — all interleavings: false as coded (D11) -/
+/-! ## 3. bind once — every interleaving of any number of requests (D11 fixed by 1f3b0b9) -/
 
-/-- The clause of the property for simultaneous requests: whatever the interleaving of the
-    store-visible steps of any number of new-account requests, a binding key (not bound at the
-    start or bound, all the same) ends up having created at most one account. -/
-def BindOnceConc : Prop :=
-  ∀ (st : State) (reqs : List Req) (sched : List Nat) (k : Nat), k ≠ 0 →
-    countVia k (threadResps (runSched st (reqs.map (⟨·, .start⟩)) sched).2) ≤ 1
+theorem mem_setAt {α : Type} {l : List α} {i : Nat} {a x : α} (h : x ∈ setAt l i a) : x = a ∨ x ∈ l := by
+  induction l generalizing i with
+  | nil => simp [setAt] at h
+  | cons y ys ih =>
+    cases i with
+    | zero =>
+      simp only [setAt, List.mem_cons] at h
+      rcases h with h | h
+      · exact .inl h
+      · exact .inr (List.mem_cons_of_mem _ h)
+    | succ i =>
+      simp only [setAt, List.mem_cons] at h
+      rcases h with h | h
+      · exact .inr (by rw [h]; exact List.mem_cons_self)
+      · rcases ih h with h' | h'
+        · exact .inl h'
+        · exact .inr (List.mem_cons_of_mem _ h')
 
-/-- second request of the witness: another account key, a binding for *that* key MACed with the
+theorem mem_setAt_self {α : Type} {l : List α} {i : Nat} {t a : α} (h : l[i]? = some t) : a ∈ setAt l i a := by
+  induction l generalizing i with
+  | nil => simp at h
+  | cons y ys ih =>
+    cases i with
+    | zero => simp [setAt]
+    | succ i => simp at h; simp only [setAt, List.mem_cons]; exact .inr (ih h)
+
+theorem mem_setAt_of_ne {α : Type} {l : List α} {i : Nat} {t a x : α} (h : l[i]? = some t) (hx : x ∈ l) (hne : x ≠ t) :
+    x ∈ setAt l i a := by
+  induction l generalizing i with
+  | nil => simp at h
+  | cons y ys ih =>
+    cases i with
+    | zero =>
+      simp at h; subst h
+      simp only [setAt, List.mem_cons] at hx ⊢
+      rcases hx with hx | hx
+      · exact absurd hx hne
+      · exact .inr hx
+    | succ i =>
+      simp at h
+      simp only [setAt, List.mem_cons] at hx ⊢
+      rcases hx with hx | hx
+      · exact .inl hx
+      · exact .inr (ih h hx)
+
+/-- every way one step of one request can go: state before, program counter before, state after,
+    program counter after -/
+inductive StepRel (r : Req) : State → Pc → State → Pc → Prop where
+  | startDone (st : State) (x : Resp) (hx : ∀ a v, x ≠ .created a v) : StepRel r st .start st (.done x)
+  | startVal (st : State) (ko : Option EKey)
+      (h : ∀ key, ko = some key → key.bound = false ∧ getKey st key.id = some key) :
+      StepRel r st .start st (.validated ko)
+  | createFail (st : State) (ko : Option EKey) : StepRel r st (.validated ko) st (.done (.err .serverInternal))
+  | createNoKey (st : State) : StepRel r st (.validated none) (addAcct st r.outerKey 0) (.done (.created st.next 0))
+  | createKey (st : State) (key : EKey) :
+      StepRel r st (.validated (some key)) (addAcct st r.outerKey key.id) (.created key st.next)
+  | bindRefused (st : State) (key : EKey) (acc : Nat) (hb : key.bound = true) :
+      StepRel r st (.created key acc) st (.done (.err .unauthorized))
+  | updateFail (st : State) (key : EKey) (acc : Nat) (e : Err) : StepRel r st (.created key acc) st (.undo acc e)
+  | updateOk (st : State) (key : EKey) (acc : Nat) (old : EKey) (hb : key.bound = false)
+      (hold : getKey st key.id = some old) (hu : old.bound = false) :
+      StepRel r st (.created key acc) { st with keys := setKey st.keys (bindTo key acc) } (.done (.created acc key.id))
+  | undo (st : State) (acc : Nat) (e : Err) :
+      StepRel r st (.undo acc e) { st with dead := acc :: st.dead } (.done (.err e))
+  | idle (st : State) (x : Resp) : StepRel r st (.done x) st (.done x)
+
+theorem step_rel (st : State) (r : Req) (pc : Pc) :
+    ∃ st' pc', step st ⟨r, pc⟩ = (st', ⟨r, pc'⟩) ∧ StepRel r st pc st' pc' := by
+  cases pc with
+  | done x => exact ⟨st, .done x, by simp [step], .idle st x⟩
+  | undo acc e => exact ⟨_, _, by simp [step, stepUndo], .undo st acc e⟩
+  | start =>
+    cases hs : stepStart st r with
+    | inl x =>
+      refine ⟨st, .done x, by simp [step, hs], .startDone st x ?_⟩
+      intro a v hxe
+      exact absurd (hxe ▸ hs) stepStart_not_created
+    | inr ko =>
+      refine ⟨st, .validated ko, by simp [step, hs], .startVal st ko ?_⟩
+      intro key hk
+      subst hk
+      have ⟨_, _, _, hv⟩ := stepStart_inr hs
+      have ⟨_, b, hb⟩ := validateEAB_some hv
+      exact ⟨hb.unbound, by rw [getKey_id hb.stored]; exact hb.stored⟩
+  | validated ko =>
+    cases hacc : acctOfKey st r.outerKey with
+    | some a => exact ⟨st, _, by simp [step, stepCreate, hacc], .createFail st ko⟩
+    | none =>
+      cases ko with
+      | none => exact ⟨_, _, by simp [step, stepCreate, hacc], .createNoKey st⟩
+      | some key => exact ⟨_, _, by simp [step, stepCreate, hacc], .createKey st key⟩
+  | created key acc =>
+    by_cases hb : key.bound = true
+    · exact ⟨st, _, by simp [step, stepUpdate, hb], .bindRefused st key acc hb⟩
+    · have hb' : key.bound = false := by simpa using hb
+      cases hg : getKey st key.id with
+      | none => exact ⟨st, _, by simp [step, stepUpdate, hb', hg], .updateFail st key acc .serverInternal⟩
+      | some old =>
+        by_cases h1 : old.prov ≠ r.prov
+        · exact ⟨st, _, by simp [step, stepUpdate, hb', hg, h1], .updateFail st key acc .serverInternal⟩
+        · by_cases h2 : old.prov ≠ key.prov
+          · exact ⟨st, _, by simp only [step, stepUpdate, hb', hg]; simp [h1, h2], .updateFail st key acc .serverInternal⟩
+          · by_cases h3 : old.bound = true
+            · exact ⟨st, _, by simp only [step, stepUpdate, hb', hg]; simp [h1, h2, h3], .updateFail st key acc .unauthorized⟩
+            · have h3' : old.bound = false := by simpa using h3
+              exact ⟨_, _, by simp only [step, stepUpdate, hb', hg]; simp [h1, h2, h3'], .updateOk st key acc old hb' hg h3'⟩
+
+/-- the request has been answered 201 with key `k` bound -/
+def doneVia (k : Nat) (t : Thread) : Bool :=
+  match t.pc with
+  | .done (.created _ v) => v == k
+  | _ => false
+
+def cntT (f : Thread → Bool) : List Thread → Nat
+  | [] => 0
+  | t :: ts => (if f t then 1 else 0) + cntT f ts
+
+theorem cntT_setAt (f : Thread → Bool) (ts : List Thread) (i : Nat) (t t' : Thread) (h : ts[i]? = some t) :
+    cntT f (setAt ts i t') + (if f t then 1 else 0) = cntT f ts + (if f t' then 1 else 0) := by
+  induction ts generalizing i with
+  | nil => simp at h
+  | cons x xs ih =>
+    cases i with
+    | zero => simp at h; subst h; simp only [setAt, cntT]; omega
+    | succ i => simp at h; have := ih i h; simp only [setAt, cntT]; omega
+
+theorem cntT_ge (f : Thread → Bool) (ts : List Thread) (i : Nat) (t : Thread) (h : ts[i]? = some t) :
+    (if f t then 1 else 0) ≤ cntT f ts := by
+  induction ts generalizing i with
+  | nil => simp at h
+  | cons x xs ih =>
+    cases i with
+    | zero => simp at h; subst h; simp only [cntT]; omega
+    | succ i => simp at h; have := ih i h; simp only [cntT]; omega
+
+theorem countVia_eq_cntT (k : Nat) (ts : List Thread) : countVia k (threadResps ts) = cntT (doneVia k) ts := by
+  induction ts with
+  | nil => rfl
+  | cons t ts ih =>
+    obtain ⟨r, pc⟩ := t
+    have hc : threadResps (⟨r, pc⟩ :: ts) = (match pc with | .done x => [x] | _ => []) ++ threadResps ts := by
+      cases pc <;> simp [threadResps, List.filterMap_cons, Thread.resp]
+    rw [hc]
+    cases pc with
+    | done x =>
+      cases x with
+      | created a v => simp only [List.cons_append, List.nil_append, countVia, cntT, doneVia, ih]; simp
+      | err e => simp only [List.cons_append, List.nil_append, countVia, cntT, doneVia, ih]; simp
+      | existing a => simp only [List.cons_append, List.nil_append, countVia, cntT, doneVia, ih]; simp
+    | start => simp [cntT, doneVia, ih]
+    | validated _ => simp [cntT, doneVia, ih]
+    | created _ _ => simp [cntT, doneVia, ih]
+    | undo _ _ => simp [cntT, doneVia, ih]
+
+theorem Bound_setKey {st : State} {k : Nat} (nu : EKey) (hnu : nu.bound = true) (h : Bound st k) :
+    Bound { st with keys := setKey st.keys nu } k := by
+  obtain ⟨key, hk, hb⟩ := h
+  by_cases hid : k = nu.id
+  · subst hid
+    refine ⟨nu, ?_, hnu⟩
+    simp only [getKey] at hk ⊢
+    rw [findKey_setKey_eq, hk]; rfl
+  · exact ⟨key, by simp only [getKey] at hk ⊢; rw [findKey_setKey_ne _ _ _ hid]; exact hk, hb⟩
+
+/-- no step unbinds a key or moves a spent key to another account -/
+theorem spent_rel {r : Req} {st st' : State} {pc pc' : Pc} (h : StepRel r st pc st' pc') {k a : Nat}
+    (hs : SpentOn st k a) : SpentOn st' k a := by
+  cases h with
+  | updateOk key acc old hb hold hu =>
+    obtain ⟨x, hx, hxb, hrest⟩ := hs
+    by_cases hid : k = key.id
+    · subst hid; rw [hold] at hx; cases hx; rw [hu] at hxb; cases hxb
+    · exact ⟨x, by simp only [getKey] at hx ⊢; rw [findKey_setKey_ne _ _ _ (by simpa [bindTo] using hid)]; exact hx, hxb, hrest⟩
+  | _ => exact hs
+
+theorem bound_rel {r : Req} {st st' : State} {pc pc' : Pc} (h : StepRel r st pc st' pc') {k : Nat}
+    (hb : Bound st k) : Bound st' k := by
+  cases h with
+  | updateOk key acc old hb' hold hu => exact Bound_setKey _ rfl hb
+  | _ => exact hb
+
+/-- account `a`, stored for key `k`, is still in the hands of its request: the key update or the
+    deactivation is yet to come -/
+def heldBy (k a : Nat) (t : Thread) : Prop :=
+  (∃ key, t.pc = .created key a ∧ key.id = k ∧ key.bound = false) ∨ (∃ e, t.pc = .undo a e)
+
+/-- what is true of key `k` in every reachable state of every interleaving -/
+structure KeyInv (k : Nat) (st : State) (ts : List Thread) : Prop where
+  /-- at most one request has been answered 201 through `k` … -/
+  once : cntT (doneVia k) ts ≤ 1
+  /-- … and then `k` is bound -/
+  doneBound : cntT (doneVia k) ts ≥ 1 → Bound st k
+  /-- the key record names exactly the account of that answer, secret erased -/
+  named : ∀ t ∈ ts, ∀ acc, t.pc = .done (.created acc k) → SpentOn st k acc
+  /-- private copies handed out by validation are unbound -/
+  copies : ∀ t ∈ ts, ∀ key, t.pc = .validated (some key) → key.bound = false
+  /-- every account stored for `k` that is still active is the one the key names, or is still in the
+      hands of its request -/
+  active : ∀ a, (a, k) ∈ st.via → a ∉ st.dead → SpentOn st k a ∨ ∃ t ∈ ts, heldBy k a t
+
+/-- the facts about one step that the invariant needs, case by case of `StepRel` -/
+theorem rel_facts (k : Nat) (hk0 : k ≠ 0) {r : Req} {st st' : State} {pc pc' : Pc} (h : StepRel r st pc st' pc')
+    (hcopy : ∀ key, pc = .validated (some key) → key.bound = false) :
+    (∀ acc, pc' = .done (.created acc k) → pc = .done (.created acc k) ∨ (¬ Bound st k ∧ SpentOn st' k acc)) ∧
+    (∀ key, pc' = .validated (some key) → key.bound = false) ∧
+    (∀ a, (a, k) ∈ st'.via → a ∉ st'.dead → ((a, k) ∈ st.via ∧ a ∉ st.dead) ∨ heldBy k a ⟨r, pc'⟩) ∧
+    (∀ a, heldBy k a ⟨r, pc⟩ → a ∉ st'.dead → heldBy k a ⟨r, pc'⟩ ∨ SpentOn st' k a) := by
+  have nohold : ∀ {p : Pc} (a : Nat), (∀ key acc, p ≠ .created key acc) → (∀ acc e, p ≠ .undo acc e) →
+      ¬ heldBy k a ⟨r, p⟩ := by
+    intro p a h1 h2 hh
+    rcases hh with ⟨key, hp, _⟩ | ⟨e, hp⟩
+    · exact h1 _ _ hp
+    · exact h2 _ _ hp
+  cases h with
+  | startDone x hx =>
+    refine ⟨?_, ?_, ?_, ?_⟩
+    · intro acc h; exact absurd (Pc.done.inj h) (hx acc k)
+    · intro key h; cases h
+    · intro a h1 h2; exact .inl ⟨h1, h2⟩
+    · intro a hh; exact absurd hh (nohold a (fun _ _ h => by cases h) (fun _ _ h => by cases h))
+  | startVal ko hv =>
+    refine ⟨?_, ?_, ?_, ?_⟩
+    · intro acc h; cases h
+    · intro key h; exact (hv key (Pc.validated.inj h)).1
+    · intro a h1 h2; exact .inl ⟨h1, h2⟩
+    · intro a hh; exact absurd hh (nohold a (fun _ _ h => by cases h) (fun _ _ h => by cases h))
+  | createFail ko =>
+    refine ⟨?_, ?_, ?_, ?_⟩
+    · intro acc h; cases h
+    · intro key h; cases h
+    · intro a h1 h2; exact .inl ⟨h1, h2⟩
+    · intro a hh; exact absurd hh (nohold a (fun _ _ h => by cases h) (fun _ _ h => by cases h))
+  | createNoKey =>
+    refine ⟨?_, ?_, ?_, ?_⟩
+    · intro acc h
+      have := Pc.done.inj h; simp at this; exact absurd this.2 (fun e => hk0 e.symm)
+    · intro key h; cases h
+    · intro a h1 h2
+      simp only [addAcct, List.mem_append, List.mem_singleton, Prod.mk.injEq] at h1
+      rcases h1 with h1 | ⟨_, h0⟩
+      · exact .inl ⟨h1, h2⟩
+      · exact absurd h0 hk0
+    · intro a hh; exact absurd hh (nohold a (fun _ _ h => by cases h) (fun _ _ h => by cases h))
+  | createKey key =>
+    refine ⟨?_, ?_, ?_, ?_⟩
+    · intro acc h; cases h
+    · intro key' h; cases h
+    · intro a h1 h2
+      simp only [addAcct, List.mem_append, List.mem_singleton, Prod.mk.injEq] at h1
+      rcases h1 with h1 | ⟨ha, hkid⟩
+      · exact .inl ⟨h1, h2⟩
+      · right; left; exact ⟨key, by rw [ha], hkid.symm, hcopy key rfl⟩
+    · intro a hh; exact absurd hh (nohold a (fun _ _ h => by cases h) (fun _ _ h => by cases h))
+  | bindRefused key acc hb =>
+    refine ⟨?_, ?_, ?_, ?_⟩
+    · intro acc' h; cases h
+    · intro key' h; cases h
+    · intro a h1 h2; exact .inl ⟨h1, h2⟩
+    · intro a hh _
+      rcases hh with ⟨key', hp, _, hub⟩ | ⟨e, hp⟩
+      · cases hp; rw [hb] at hub; cases hub
+      · cases hp
+  | updateFail key acc e =>
+    refine ⟨?_, ?_, ?_, ?_⟩
+    · intro acc' h; cases h
+    · intro key' h; cases h
+    · intro a h1 h2; exact .inl ⟨h1, h2⟩
+    · intro a hh _
+      rcases hh with ⟨key', hp, _, _⟩ | ⟨e', hp⟩
+      · cases hp; exact .inl (.inr ⟨e, rfl⟩)
+      · cases hp
+  | updateOk key acc old hb hold hu =>
+    have hsp : SpentOn { st with keys := setKey st.keys (bindTo key acc) } key.id acc := by
+      refine ⟨bindTo key acc, ?_, rfl, rfl, rfl⟩
+      simp only [getKey] at hold ⊢
+      have := findKey_setKey_eq st.keys (bindTo key acc)
+      simp only [bindTo] at this ⊢
+      rw [this, hold]; rfl
+    refine ⟨?_, ?_, ?_, ?_⟩
+    · intro acc' h
+      have := Pc.done.inj h; simp at this
+      obtain ⟨ha, hid⟩ := this
+      right
+      refine ⟨?_, by rw [← ha, ← hid]; exact hsp⟩
+      intro ⟨x, hx, hxb⟩
+      rw [← hid, hold] at hx; cases hx; rw [hu] at hxb; cases hxb
+    · intro key' h; cases h
+    · intro a h1 h2; exact .inl ⟨h1, h2⟩
+    · intro a hh _
+      rcases hh with ⟨key', hp, hid, _⟩ | ⟨e, hp⟩
+      · cases hp; right; rw [← hid]; exact hsp
+      · cases hp
+  | undo acc e =>
+    refine ⟨?_, ?_, ?_, ?_⟩
+    · intro acc' h; cases h
+    · intro key' h; cases h
+    · intro a h1 h2
+      simp only [List.mem_cons, not_or] at h2; exact .inl ⟨h1, h2.2⟩
+    · intro a hh hd
+      rcases hh with ⟨key', hp, _⟩ | ⟨e', hp⟩
+      · cases hp
+      · cases hp; simp at hd
+  | idle x =>
+    refine ⟨?_, ?_, ?_, ?_⟩
+    · intro acc h; exact .inl h
+    · intro key h; cases h
+    · intro a h1 h2; exact .inl ⟨h1, h2⟩
+    · intro a hh _; exact .inl hh
+
+theorem dead_mono {r : Req} {st st' : State} {pc pc' : Pc} (h : StepRel r st pc st' pc') {a : Nat}
+    (hd : a ∉ st'.dead) : a ∉ st.dead := by
+  cases h with
+  | undo acc e => simp only [List.mem_cons, not_or] at hd; exact hd.2
+  | _ => exact hd
+
+theorem keyInv_step (k : Nat) (hk0 : k ≠ 0) (st : State) (ts : List Thread) (i : Nat) (t : Thread)
+    (hi : ts[i]? = some t) (hinv : KeyInv k st ts) :
+    KeyInv k (step st t).1 (setAt ts i (step st t).2) := by
+  obtain ⟨r, pc⟩ := t
+  obtain ⟨st', pc', hstep, hrel⟩ := step_rel st r pc
+  rw [hstep]
+  simp only []
+  have hmem : (⟨r, pc⟩ : Thread) ∈ ts := List.mem_of_getElem? hi
+  have cd := cntT_setAt (doneVia k) ts i ⟨r, pc⟩ ⟨r, pc'⟩ hi
+  have gd := cntT_ge (doneVia k) ts i ⟨r, pc⟩ hi
+  obtain ⟨fA, fB, fC, fD⟩ := rel_facts k hk0 hrel (fun key hp => hinv.copies ⟨r, pc⟩ hmem key hp)
+  -- doneVia of the moving request before / after
+  have hDnew : doneVia k ⟨r, pc'⟩ = true → doneVia k ⟨r, pc⟩ = true ∨ (¬ Bound st k ∧ Bound st' k) := by
+    intro hd
+    cases hpc : pc' with
+    | done x =>
+      cases x with
+      | created acc v =>
+        rw [hpc] at hd
+        have hv : v = k := by simpa [doneVia] using hd
+        subst hv
+        rcases fA acc hpc with h | ⟨h1, h2⟩
+        · left; simp [doneVia, h]
+        · right; exact ⟨h1, ⟨_, h2.choose_spec.1, h2.choose_spec.2.1⟩⟩
+      | err e => rw [hpc] at hd; simp [doneVia] at hd
+      | existing a => rw [hpc] at hd; simp [doneVia] at hd
+    | start => rw [hpc] at hd; simp [doneVia] at hd
+    | validated _ => rw [hpc] at hd; simp [doneVia] at hd
+    | created _ _ => rw [hpc] at hd; simp [doneVia] at hd
+    | undo _ _ => rw [hpc] at hd; simp [doneVia] at hd
+  refine ⟨?_, ?_, ?_, ?_, ?_⟩
+  · -- once
+    by_cases hn : doneVia k ⟨r, pc'⟩ = true
+    · rcases hDnew hn with ho | ⟨hnb, _⟩
+      · simp [hn, ho] at cd; have := hinv.once; omega
+      · have hd0 : cntT (doneVia k) ts = 0 := by
+          by_cases hd : cntT (doneVia k) ts ≥ 1
+          · exact absurd (hinv.doneBound hd) hnb
+          · omega
+        have : doneVia k ⟨r, pc⟩ = false := by
+          by_cases h : doneVia k ⟨r, pc⟩ = true
+          · simp [h] at gd; omega
+          · simpa using h
+        simp [hn, this] at cd; omega
+    · have hn' : doneVia k ⟨r, pc'⟩ = false := by simpa using hn
+      simp [hn'] at cd; have := hinv.once; omega
+  · -- doneBound
+    intro hd'
+    by_cases hd : cntT (doneVia k) ts ≥ 1
+    · exact bound_rel hrel (hinv.doneBound hd)
+    · have hn : doneVia k ⟨r, pc'⟩ = true := by
+        by_cases h : doneVia k ⟨r, pc'⟩ = true
+        · exact h
+        · simp [h] at cd; omega
+      rcases hDnew hn with ho | ⟨_, hb⟩
+      · simp [ho] at gd; omega
+      · exact hb
+  · -- named
+    intro x hx acc hp
+    rcases mem_setAt hx with rfl | hx'
+    · simp only [] at hp
+      rcases fA acc hp with h | ⟨_, h2⟩
+      · exact spent_rel hrel (hinv.named ⟨r, pc⟩ hmem acc h)
+      · exact h2
+    · exact spent_rel hrel (hinv.named x hx' acc hp)
+  · -- copies
+    intro x hx key hp
+    rcases mem_setAt hx with rfl | hx'
+    · exact fB key hp
+    · exact hinv.copies x hx' key hp
+  · -- active
+    intro a hv hd
+    rcases fC a hv hd with ⟨hv0, hd0⟩ | hheld
+    · rcases hinv.active a hv0 hd0 with hs | ⟨x, hx, hh⟩
+      · exact .inl (spent_rel hrel hs)
+      · by_cases hxt : x = ⟨r, pc⟩
+        · subst hxt
+          rcases fD a hh hd with h | h
+          · exact .inr ⟨_, mem_setAt_self hi, h⟩
+          · exact .inl h
+        · exact .inr ⟨x, mem_setAt_of_ne hi hx hxt, hh⟩
+    · exact .inr ⟨_, mem_setAt_self hi, hheld⟩
+
+theorem keyInv_run (k : Nat) (hk0 : k ≠ 0) (sched : List Nat) (st : State) (ts : List Thread)
+    (hinv : KeyInv k st ts) : KeyInv k (runSched st ts sched).1 (runSched st ts sched).2 := by
+  induction sched generalizing st ts with
+  | nil => exact hinv
+  | cons i rest ih =>
+    simp only [runSched]
+    cases hi : ts[i]? with
+    | none => exact ih st ts hinv
+    | some t => exact ih _ _ (keyInv_step k hk0 st ts i t hi hinv)
+
+/-- the invariant holds at the start: every request at its beginning, and every active account
+    recorded for `k` so far is the one `k` names -/
+theorem keyInv_init (k : Nat) (st : State) (reqs : List Req)
+    (h0 : ∀ a, (a, k) ∈ st.via → a ∉ st.dead → SpentOn st k a) :
+    KeyInv k st (reqs.map (⟨·, .start⟩)) := by
+  have hc : cntT (doneVia k) (reqs.map (⟨·, .start⟩)) = 0 := by
+    induction reqs with
+    | nil => rfl
+    | cons r rs ih => simp [cntT, doneVia, ih]
+  have hstart : ∀ t ∈ reqs.map (fun r => (⟨r, .start⟩ : Thread)), t.pc = .start := by
+    intro t ht
+    simp only [List.mem_map] at ht
+    obtain ⟨r, _, rfl⟩ := ht
+    rfl
+  refine ⟨by omega, fun h => by omega, ?_, ?_, fun a hv hd => .inl (h0 a hv hd)⟩
+  · intro t ht acc hp; rw [hstart t ht] at hp; cases hp
+  · intro t ht key hp; rw [hstart t ht] at hp; cases hp
+
+/-- every request has been answered -/
+def allDone (ts : List Thread) : Prop := ∀ t ∈ ts, ∃ x, t.pc = .done x
+
+/-- **bind_once_conc.** Any number of new-account requests, ANY interleaving of their store-visible
+    steps (validation reads, `CreateAccount`, key update, deactivation after a failed update), from
+    any store in which the active accounts recorded for key `k` so far are the one `k` names:
+
+    1. at most one request is answered 201 through key `k`;
+    2. whenever a request has been answered 201 for account `acc` through `k`, the key record is bound
+       to exactly `acc`, its secret erased — at that moment and in every later state;
+    3. once every request has been answered, every account that was stored on behalf of `k` and is
+       still active is the account the key record names: at most one ACTIVE account per key, and it is
+       the one in the key record (the accounts of the requests that lost the race are deactivated). -/
+theorem bind_once_conc (k : Nat) (hk0 : k ≠ 0) (st : State) (reqs : List Req) (sched : List Nat)
+    (h0 : ∀ a, (a, k) ∈ st.via → a ∉ st.dead → SpentOn st k a) :
+    let fin := runSched st (reqs.map (⟨·, .start⟩)) sched
+    countVia k (threadResps fin.2) ≤ 1 ∧
+    (∀ t ∈ fin.2, ∀ acc, t.pc = .done (.created acc k) → SpentOn fin.1 k acc) ∧
+    (allDone fin.2 → ∀ a, (a, k) ∈ fin.1.via → a ∉ fin.1.dead → SpentOn fin.1 k a) ∧
+    (allDone fin.2 → ∀ a b, (a, k) ∈ fin.1.via → a ∉ fin.1.dead → (b, k) ∈ fin.1.via → b ∉ fin.1.dead → a = b) := by
+  intro fin
+  have inv := keyInv_run k hk0 sched st _ (keyInv_init k st reqs h0)
+  have h3 : allDone fin.2 → ∀ a, (a, k) ∈ fin.1.via → a ∉ fin.1.dead → SpentOn fin.1 k a := by
+    intro hall a hv hd
+    rcases inv.active a hv hd with hs | ⟨t, ht, hh⟩
+    · exact hs
+    · obtain ⟨x, hx⟩ := hall t ht
+      rcases hh with ⟨key, hp, _⟩ | ⟨e, hp⟩ <;> (rw [hx] at hp; cases hp)
+  refine ⟨by rw [countVia_eq_cntT]; exact inv.once, inv.named, h3, ?_⟩
+  intro hall a b ha hda hb hdb
+  obtain ⟨x, hx, _, _, hxa⟩ := h3 hall a ha hda
+  obtain ⟨y, hy, _, _, hyb⟩ := h3 hall b hb hdb
+  rw [hx] at hy; cases hy
+  rw [← hxa, ← hyb]
+
+/-- second request of the witness pair: another account key, a binding for *that* key MACed with the
     same secret (the holder of the secret can produce as many as it likes) -/
 def exReq2 : Req := { exReq with outerKey := 42, binding := some { exBinding with payloadKey := some 42 } }
 
-/-- the schedule validate₁ validate₂ create₁ create₂ update₁ update₂ -/
-def d11Sched : List Nat := [0, 1, 0, 1, 0, 1]
+/-- the schedule validate₁ validate₂ create₁ create₂ update₁ update₂ (then the loser's deactivation) -/
+def d11Sched : List Nat := [0, 1, 0, 1, 0, 1, 1]
 
-/-- both requests are answered 201 and name key 7 -/
-theorem d11_two_accounts :
-    threadResps (runSched exState [⟨exReq, .start⟩, ⟨exReq2, .start⟩] d11Sched).2
-      = [.created 1 7, .created 2 7] := by decide
-
-/-- … and the store ends with the key bound to the *second* account: the first binding is overwritten -/
-theorem d11_overwritten :
+-- D11's schedule on the repaired code: the first request wins, the second is refused, its account is
+-- deactivated, the key names account 1
+example : threadResps (runSched exState [⟨exReq, .start⟩, ⟨exReq2, .start⟩] d11Sched).2
+    = [.created 1 7, .err .unauthorized] := by decide
+example : (runSched exState [⟨exReq, .start⟩, ⟨exReq2, .start⟩] d11Sched).1.dead = [2] ∧
     getKey (runSched exState [⟨exReq, .start⟩, ⟨exReq2, .start⟩] d11Sched).1 7
-      = some { id := 7, prov := 1, hasSecret := false, bound := true, account := 2 } := by decide
+      = some { id := 7, prov := 1, hasSecret := false, bound := true, account := 1 } := by decide
 
-/-- **bind_once_conc_refuted.** As coded, the all-interleavings clause is false. -/
-theorem bind_once_conc_refuted : ¬ BindOnceConc := by
-  intro h
-  have := h exState [exReq, exReq2] d11Sched 7 (by decide)
-  revert this
-  decide
-
-/-- all interleavings of two three-step requests -/
+/-- all interleavings of two four-step requests (the fourth step is used only by a loser) -/
 def interleave : Nat → Nat → Nat → List (List Nat)
   | 0, _, _ => [[]]
   | n + 1, a, b =>
     (if a > 0 then (interleave n (a - 1) b).map (0 :: ·) else []) ++
     (if b > 0 then (interleave n a (b - 1)).map (1 :: ·) else [])
 
-def isSerial (s : List Nat) : Bool := s == [0, 0, 0, 1, 1, 1] || s == [1, 1, 1, 0, 0, 0]
+/-- **interleavings_bind_once** (table, `decide`; what stage `conc` demands of the real handlers for
+    the witness pair): in each of the 70 interleavings of two requests with four moves each, exactly
+    one account is created through the key, exactly one account is active, and the key names it. -/
+theorem interleavings_bind_once :
+    (interleave 8 4 4).length = 70 ∧
+    (interleave 8 4 4).all (fun s =>
+      let fin := runSched exState [⟨exReq, .start⟩, ⟨exReq2, .start⟩] s
+      countVia 7 (threadResps fin.2) == 1 &&
+      ((fin.1.via.filter fun p => p.2 == 7 && !fin.1.dead.contains p.1).map (·.1)
+        == (match getKey fin.1 7 with | some key => [key.account] | none => []))) = true := by decide
 
-/-- **overlap_always_double** (a table closed by evaluation, for the witness pair): of the 20
-    interleavings, the 2 serial ones create one account through the key, each of the 18 overlapping
-    ones creates two. D11 is therefore not one unlucky schedule but every overlap. -/
-theorem overlap_always_double :
-    (interleave 6 3 3).length = 20 ∧
-    (interleave 6 3 3).all (fun s =>
-      countVia 7 (threadResps (runSched exState [⟨exReq, .start⟩, ⟨exReq2, .start⟩] s).2)
-        == (if isSerial s then 1 else 2)) = true := by decide
+/-- historic (before commit 1f3b0b9): `UpdateExternalAccountKey` compare-and-swapped from the record it
+    had just re-read, bound or not, and nothing was undone: after validate₁ validate₂ create₁ create₂
+    update₁ the second update replaced the binding -/
+def stepUpdateBeforeFix (st : State) (r : Req) (k : EKey) (acc : Nat) : State × Resp :=
+  match getKey st k.id with
+  | none => (st, .err .serverInternal)
+  | some old =>
+    if old.prov ≠ r.prov then (st, .err .serverInternal)
+    else ({ st with keys := setKey st.keys (bindTo k acc) }, .created acc k.id)
 
-/-! ### … and true when the requests do not overlap -/
-
-def stepN (st : State) (t : Thread) : Nat → State × Thread
-  | 0 => (st, t)
-  | n + 1 => stepN (step st t).1 (step st t).2 n
-
-theorem stepN_add (st : State) (t : Thread) (a b : Nat) :
-    stepN st t (a + b) = stepN (stepN st t a).1 (stepN st t a).2 b := by
-  induction a generalizing st t with
-  | zero => simp [stepN]
-  | succ n ih => rw [Nat.add_right_comm]; simp only [stepN]; exact ih _ _
-
-theorem stepN_done (st : State) (r : Req) (x : Resp) (n : Nat) :
-    stepN st ⟨r, .done x⟩ n = (st, ⟨r, .done x⟩) := by
-  induction n with
-  | zero => rfl
-  | succ n ih => simp only [stepN, step]; exact ih
-
-theorem step_req (st : State) (t : Thread) : (step st t).2.req = t.req := by
-  unfold step
-  repeat' split
-  all_goals rfl
-
-/-- three steps of a request from its start are the request run alone -/
-theorem stepN_three (st : State) (r : Req) :
-    stepN st ⟨r, .start⟩ 3 = ((handle st r).1, ⟨r, .done (handle st r).2⟩) := by
-  simp only [stepN, handle]
-  cases h1 : stepStart st r with
-  | inl x => simp [step, h1]
-  | inr k =>
-    simp only [step, h1]
-    cases hc : stepCreate st r k with
-    | mk s y =>
-      cases y with
-      | inl x => simp
-      | inr p => obtain ⟨k', acc⟩ := p; simp
-
-/-- whenever a request has an answer, it is the answer (and the store) of the request run alone
-    from the store it started in — provided nobody else moved in between -/
-theorem stepN_resp (st : State) (r : Req) (n : Nat) {x : Resp}
-    (h : (stepN st ⟨r, .start⟩ n).2.pc = .done x) :
-    stepN st ⟨r, .start⟩ n = ((handle st r).1, ⟨r, .done (handle st r).2⟩) := by
-  have hreq : ∀ m (s : State) (t : Thread), (stepN s t m).2.req = t.req := by
-    intro m
-    induction m with
-    | zero => intro s t; rfl
-    | succ m ih => intro s t; simp only [stepN]; rw [ih, step_req]
-  have e1 : stepN st ⟨r, .start⟩ (n + 3) = stepN st ⟨r, .start⟩ n := by
-    rw [stepN_add]
-    have : (stepN st ⟨r, .start⟩ n).2 = ⟨r, .done x⟩ := by
-      have hr := hreq n st ⟨r, .start⟩
-      cases hh : (stepN st ⟨r, .start⟩ n).2 with
-      | mk rq pc => rw [hh] at h hr; simp at h hr; rw [h, hr]
-    rw [this, stepN_done]
-    rw [← this]
-  have e2 : stepN st ⟨r, .start⟩ (3 + n) = ((handle st r).1, ⟨r, .done (handle st r).2⟩) := by
-    rw [stepN_add, stepN_three, stepN_done]
-  rw [← e1, Nat.add_comm, e2]
-
-theorem runSched_rep0 (st : State) (t0 t1 : Thread) (n : Nat) (rest : List Nat) :
-    runSched st [t0, t1] (List.replicate n 0 ++ rest) =
-      runSched (stepN st t0 n).1 [(stepN st t0 n).2, t1] rest := by
-  induction n generalizing st t0 with
-  | zero => simp [stepN]
-  | succ n ih =>
-    simp only [List.replicate_succ, List.cons_append, runSched, stepN]
-    simp only [List.getElem?_cons_zero, setAt]
-    exact ih _ _
-
-theorem runSched_rep1 (st : State) (t0 t1 : Thread) (n : Nat) (rest : List Nat) :
-    runSched st [t0, t1] (List.replicate n 1 ++ rest) =
-      runSched (stepN st t1 n).1 [t0, (stepN st t1 n).2] rest := by
-  induction n generalizing st t1 with
-  | zero => simp [stepN]
-  | succ n ih =>
-    simp only [List.replicate_succ, List.cons_append, runSched, stepN]
-    simp only [List.getElem?_cons_succ, List.getElem?_cons_zero, setAt]
-    exact ih _ _
-
-theorem countVia_pair_le (k : Nat) (x0 x1 : Resp) (o : Option Resp)
-    (h : countVia k [x0, x1] ≤ 1) (ho : o = none ∨ o = some x1) :
-    countVia k ([some x0, o].filterMap id) ≤ 1 := by
-  rcases ho with rfl | rfl
-  · simp only [List.filterMap_cons, id, List.filterMap_nil]
-    cases x0 <;> cases x1 <;> simp [countVia] at h ⊢ <;> omega
-  · simpa using h
-
-/-- **bind_once_conc_partial.** If the first request has finished (its three steps, or more
-    attempts to move) before the second starts, then however far the second gets, the key has
-    created at most one account. By symmetry the same holds with the roles exchanged
-    (`bind_once_conc_partial_rev`). -/
-theorem bind_once_conc_partial (st : State) (r0 r1 : Req) (k : Nat) (hk0 : k ≠ 0)
-    (a b : Nat) (ha : 3 ≤ a) :
-    countVia k (threadResps (runSched st [⟨r0, .start⟩, ⟨r1, .start⟩]
-      (List.replicate a 0 ++ List.replicate b 1)).2) ≤ 1 := by
-  obtain ⟨a', rfl⟩ : ∃ a', a = 3 + a' := ⟨a - 3, by omega⟩
-  rw [runSched_rep0, stepN_add, stepN_three, stepN_done]
-  have := runSched_rep1 (handle st r0).1 ⟨r0, .done (handle st r0).2⟩ ⟨r1, .start⟩ b []
-  simp only [List.append_nil] at this
-  rw [this]
-  simp only [runSched, threadResps, List.filterMap_cons, List.filterMap_nil, Thread.resp]
-  have hseq := (bind_once_seq k hk0 [r0, r1] st).1
-  simp only [runHist] at hseq
-  generalize hs1 : (handle st r0).1 = s1 at *
-  generalize hx0 : (handle st r0).2 = x0 at *
-  cases hp : (stepN s1 ⟨r1, .start⟩ b).2.pc with
-  | done x =>
-    have := stepN_resp s1 r1 b hp
-    rw [this] at hp
-    simp at hp
-    rw [← hp]
-    exact hseq
-  | start => simp; cases x0 <;> simp [countVia] <;> split <;> omega
-  | validated _ => simp; cases x0 <;> simp [countVia] <;> split <;> omega
-  | created _ _ => simp; cases x0 <;> simp [countVia] <;> split <;> omega
-
-theorem countVia_pair_swap (k : Nat) (x0 x1 : Resp) : countVia k [x1, x0] = countVia k [x0, x1] := by
-  cases x0 <;> cases x1 <;> simp [countVia] <;> omega
-
-/-- the same with the second request first -/
-theorem bind_once_conc_partial_rev (st : State) (r0 r1 : Req) (k : Nat) (hk0 : k ≠ 0)
-    (a b : Nat) (hb : 3 ≤ b) :
-    countVia k (threadResps (runSched st [⟨r0, .start⟩, ⟨r1, .start⟩]
-      (List.replicate b 1 ++ List.replicate a 0)).2) ≤ 1 := by
-  obtain ⟨b', rfl⟩ : ∃ b', b = 3 + b' := ⟨b - 3, by omega⟩
-  rw [runSched_rep1, stepN_add, stepN_three, stepN_done]
-  have := runSched_rep0 (handle st r1).1 ⟨r0, .start⟩ ⟨r1, .done (handle st r1).2⟩ a []
-  simp only [List.append_nil] at this
-  rw [this]
-  simp only [runSched, threadResps, List.filterMap_cons, List.filterMap_nil, Thread.resp]
-  have hseq := (bind_once_seq k hk0 [r1, r0] st).1
-  simp only [runHist] at hseq
-  generalize hs1 : (handle st r1).1 = s1 at *
-  generalize hx1 : (handle st r1).2 = x1 at *
-  cases hp : (stepN s1 ⟨r0, .start⟩ a).2.pc with
-  | done x =>
-    have := stepN_resp s1 r0 a hp
-    rw [this] at hp
-    simp at hp
-    rw [← hp, countVia_pair_swap]
-    exact hseq
-  | start => simp; cases x1 <;> simp [countVia] <;> split <;> omega
-  | validated _ => simp; cases x1 <;> simp [countVia] <;> split <;> omega
-  | created _ _ => simp; cases x1 <;> simp [countVia] <;> split <;> omega
-
-/-- the partial theorem is not vacuous: the serial schedule on the D11 pair gives exactly one account -/
-example : countVia 7 (threadResps (runSched exState [⟨exReq, .start⟩, ⟨exReq2, .start⟩]
-    (List.replicate 3 0 ++ List.replicate 3 1)).2) = 1 := by decide
-
-/-! ### … and for any number of requests that do not overlap -/
-
-theorem getElem?_setAt_self {α : Type} (l : List α) (i : Nat) (a b : α) (h : l[i]? = some a) :
-    (setAt l i b)[i]? = some b := by
-  induction l generalizing i with
-  | nil => simp at h
-  | cons x xs ih =>
-    cases i with
-    | zero => simp [setAt]
-    | succ i => simp at h; simp [setAt]; exact ih i h
-
-theorem getElem?_setAt_ne {α : Type} (l : List α) (i j : Nat) (b : α) (h : j ≠ i) :
-    (setAt l i b)[j]? = l[j]? := by
-  induction l generalizing i j with
-  | nil => simp [setAt]
-  | cons x xs ih =>
-    cases i with
-    | zero =>
-      cases j with
-      | zero => exact absurd rfl h
-      | succ j => simp [setAt]
-    | succ i =>
-      cases j with
-      | zero => simp [setAt]
-      | succ j => simp [setAt]; exact ih i j (by omega)
-
-theorem setAt_setAt {α : Type} (l : List α) (i : Nat) (a b : α) : setAt (setAt l i a) i b = setAt l i b := by
-  induction l generalizing i with
-  | nil => simp [setAt]
-  | cons x xs ih =>
-    cases i with
-    | zero => simp [setAt]
-    | succ i => simp [setAt]; exact ih i
-
-theorem runSched_move (st : State) (ts : List Thread) (i : Nat) (t : Thread) (rest : List Nat)
-    (h : ts[i]? = some t) :
-    runSched st ts (i :: rest) = runSched (step st t).1 (setAt ts i (step st t).2) rest := by
-  simp [runSched, h]
-
-/-- a request that takes its three steps back to back, whatever the other requests are doing -/
-theorem runSched_block (st : State) (ts : List Thread) (i : Nat) (r : Req) (rest : List Nat)
-    (h : ts[i]? = some ⟨r, .start⟩) :
-    runSched st ts (i :: i :: i :: rest) =
-      runSched (handle st r).1 (setAt ts i ⟨r, .done (handle st r).2⟩) rest := by
-  have h3 := stepN_three st r
-  simp only [stepN] at h3
-  rw [runSched_move st ts i _ _ h]
-  rw [runSched_move _ _ i _ _ (getElem?_setAt_self ts i _ _ h), setAt_setAt]
-  rw [runSched_move _ _ i _ _ (getElem?_setAt_self ts i _ _ h), setAt_setAt]
-  have e1 := congrArg Prod.fst h3
-  have e2 := congrArg Prod.snd h3
-  simp only [] at e1 e2
-  rw [e1, e2]
-
-/-- what one thread contributes to `countVia k` -/
-def cv (k : Nat) (t : Thread) : Nat :=
-  match t.pc with
-  | .done (.created _ v) => if v = k then 1 else 0
-  | _ => 0
-
-theorem countVia_cons (k : Nat) (t : Thread) (ts : List Thread) :
-    countVia k (threadResps (t :: ts)) = cv k t + countVia k (threadResps ts) := by
-  obtain ⟨r, pc⟩ := t
-  cases pc with
-  | done x => cases x <;> simp [threadResps, Thread.resp, cv, countVia]
-  | start => simp [threadResps, List.filterMap_cons, Thread.resp, cv]
-  | validated _ => simp [threadResps, List.filterMap_cons, Thread.resp, cv]
-  | created _ _ => simp [threadResps, List.filterMap_cons, Thread.resp, cv]
-
-theorem countVia_setAt (k : Nat) (ts : List Thread) (i : Nat) (t t' : Thread) (h : ts[i]? = some t) :
-    countVia k (threadResps (setAt ts i t')) + cv k t = countVia k (threadResps ts) + cv k t' := by
-  induction ts generalizing i with
-  | nil => simp at h
-  | cons x xs ih =>
-    cases i with
-    | zero => simp at h; subst h; simp only [setAt, countVia_cons]; omega
-    | succ i =>
-      simp at h
-      have := ih i h
-      simp only [setAt, countVia_cons]; omega
-
-/-- the schedule in which the requests listed in `order` run one after the other, each to completion -/
-def serialSched (order : List Nat) : List Nat := order.flatMap fun i => [i, i, i]
-
-theorem serial_aux (k : Nat) (hk0 : k ≠ 0) (order : List Nat) (st : State) (ts : List Thread)
-    (hnd : order.Nodup) (hstart : ∀ i ∈ order, ∃ r, ts[i]? = some ⟨r, .start⟩) :
-    countVia k (threadResps (runSched st ts (serialSched order)).2) ≤ countVia k (threadResps ts) + 1 ∧
-    (Bound st k → countVia k (threadResps (runSched st ts (serialSched order)).2) = countVia k (threadResps ts)) := by
-  induction order generalizing st ts with
-  | nil => simp [serialSched, runSched]
-  | cons i rest ih =>
-    obtain ⟨r, hi⟩ := hstart i List.mem_cons_self
-    have hsched : serialSched (i :: rest) = i :: i :: i :: serialSched rest := by
-      simp [serialSched, List.flatMap_cons]
-    rw [hsched, runSched_block st ts i r _ hi]
-    have hnd' : rest.Nodup := (List.nodup_cons.mp hnd).2
-    have hni : i ∉ rest := (List.nodup_cons.mp hnd).1
-    cases hh : handle st r with
-    | mk s1 x =>
-      simp only []
-      have hstart' : ∀ j ∈ rest, ∃ r', (setAt ts i ⟨r, .done x⟩)[j]? = some ⟨r', .start⟩ := by
-        intro j hj
-        obtain ⟨r', hr'⟩ := hstart j (List.mem_cons_of_mem _ hj)
-        exact ⟨r', by rw [getElem?_setAt_ne _ _ _ _ (fun e : j = i => hni (e ▸ hj))]; exact hr'⟩
-      have ⟨i1, i2⟩ := ih s1 (setAt ts i ⟨r, .done x⟩) hnd' hstart'
-      have hc := countVia_setAt k ts i ⟨r, .start⟩ ⟨r, .done x⟩ hi
-      have hcv0 : cv k (⟨r, .start⟩ : Thread) = 0 := rfl
-      by_cases hx : ∃ acc, x = .created acc k
-      · obtain ⟨acc, hx⟩ := hx
-        subst hx
-        have hsp : Spent s1 k := ⟨acc, created_spends_key hh hk0⟩
-        have h0 := i2 hsp.bound
-        have hcv1 : cv k (⟨r, .done (.created acc k)⟩ : Thread) = 1 := by simp [cv]
-        refine ⟨by omega, fun hb => ?_⟩
-        exact absurd (congrArg Prod.snd hh) (bound_key_refused hk0 hb r acc)
-      · have hcv1 : cv k (⟨r, .done x⟩ : Thread) = 0 := by
-          cases x with
-          | created a v =>
-            have : v ≠ k := fun hv => hx ⟨a, by rw [hv]⟩
-            simp [cv, this]
-          | err e => simp [cv]
-          | existing a => simp [cv]
-        have hkeep : getKey s1 k = getKey st k := by
-          rcases handle_getKey hh k with he | ⟨acc, hxx, _⟩
-          · exact he
-          · exact absurd ⟨acc, hxx⟩ hx
-        refine ⟨by omega, fun hb => ?_⟩
-        obtain ⟨key, hb1, hb2⟩ := hb
-        have := i2 ⟨key, by rw [hkeep]; exact hb1, hb2⟩
-        omega
-
-/-- **bind_once_conc_serial.** Any number of new-account requests, any subset of them run one after
-    the other in any order, each taking its three steps without another request moving in between:
-    a binding key creates at most one account. -/
-theorem bind_once_conc_serial (k : Nat) (hk0 : k ≠ 0) (st : State) (reqs : List Req) (order : List Nat)
-    (hnd : order.Nodup) (hlt : ∀ i ∈ order, i < reqs.length) :
-    countVia k (threadResps (runSched st (reqs.map (⟨·, .start⟩)) (serialSched order)).2) ≤ 1 := by
-  have h0 : ∀ l : List Req, countVia k (threadResps (l.map (⟨·, .start⟩))) = 0 := by
-    intro l
-    induction l with
-    | nil => rfl
-    | cons r rs ih => rw [List.map_cons, countVia_cons, ih]; rfl
-  have hs : ∀ i ∈ order, ∃ r, (reqs.map (⟨·, .start⟩ : Req → Thread))[i]? = some ⟨r, .start⟩ := by
-    intro i hi
-    have := hlt i hi
-    exact ⟨reqs[i], by simp [List.getElem?_map, List.getElem?_eq_getElem this]⟩
-  have := (serial_aux k hk0 order st _ hnd hs).1
-  rw [h0 reqs] at this
-  exact this
-
--- three requests through one key, run serially in the order 2, 0, 1: one account
-example : countVia 7 (threadResps (runSched exState [⟨exReq, .start⟩, ⟨exReq2, .start⟩, ⟨exReq, .start⟩]
-    (serialSched [2, 0, 1])).2) = 1 := by decide
+example :
+    let s := (runSched exState [⟨exReq, .start⟩, ⟨exReq2, .start⟩] [0, 1, 0, 1, 0]).1   -- … update₁ done
+    (stepUpdateBeforeFix s exReq2 exKey 2).2 = .created 2 7 ∧
+    getKey (stepUpdateBeforeFix s exReq2 exKey 2).1 7
+      = some { id := 7, prov := 1, hasSecret := false, bound := true, account := 2 } := by decide
 
 
 /-! ## 4. the key's policy limits every order of the account bound to it -/
@@ -729,5 +896,48 @@ example : orderGate (handle exState exReq).1 true 1 1 exPol [exNames "zap.intern
     = .rejected := by decide
 -- another account (none bound to a key) is not limited by key 7's policy
 example : orderGate (handle exState exReq).1 true 1 2 exPol [exNames "*.zap.internal" ".zap.internal"] = .pass := by decide
+
+/-! ## 5. the requirement survives the migration of the provisioner to the admin database -/
+
+/-- **migration_keeps_requirement.** Whatever the provisioner, after the round trip through the
+    admin-database form the authority serves one that requires external account binding exactly when
+    the configured one did — and with the same forceCN, terms of service, website, CAA identities,
+    attestation formats and roots. -/
+theorem migration_keeps_requirement (p : AcmeProv) :
+    (migrate p).requireEAB = p.requireEAB ∧ (migrate p).forceCN = p.forceCN ∧
+    (migrate p).termsOfService = p.termsOfService ∧ (migrate p).website = p.website ∧
+    (migrate p).caaIdentities = p.caaIdentities ∧ (migrate p).formats = p.formats ∧ (migrate p).roots = p.roots :=
+  ⟨rfl, rfl, rfl, rfl, rfl, rfl, rfl⟩
+
+/-- the whole provisioner comes back unchanged unless it lists wire challenges (the admin-database
+    form has no value for them: they are dropped) -/
+theorem migration_identity_partial (p : AcmeProv) (h : ∀ c ∈ p.challenges, isWire c = false) : migrate p = p := by
+  have hf : p.challenges.filter (fun c => !isWire c) = p.challenges := by
+    apply List.filter_eq_self.mpr
+    intro c hc; simp [h c hc]
+  simp only [migrate, toCert, toLinked, hf]
+
+/-- **migrated_still_requires.** On the migrated authority a new-account request without a binding
+    for a provisioner that was configured with requireEAB is refused (externalAccountRequired), from
+    every store. -/
+theorem migrated_still_requires (p : AcmeProv) (hp : p.requireEAB = true) (st : State) (r : Req)
+    (hr : r.requireEAB = (migrate p).requireEAB) (hb : r.binding = none) :
+    validateEAB st r = .error .externalAccountRequired := by
+  have : r.requireEAB = true := by rw [hr, (migration_keeps_requirement p).1, hp]
+  simp [validateEAB, this, hb]
+
+def exProv : AcmeProv :=
+  { requireEAB := true, forceCN := false, termsOfService := 3, website := 0, caaIdentities := [5],
+    challenges := [.http01, .wireOidc01, .deviceAttest01], formats := [.step], roots := 9 }
+
+example : migrate exProv = { exProv with challenges := [.http01, .deviceAttest01] } := by decide
+
+/-- **steps_cover_calls** (table): the three steps of the model are exactly the store calls of one
+    new-account request in program order — the two reads, `CreateAccount`, `BindTo` +
+    `UpdateExternalAccountKey` (the call lists are re-derived from the source on every run). -/
+theorem steps_cover_calls :
+    (stepCalls.map (·.2)).flatten =
+      callsExtractJWK ++ (callsNewAccount.flatMap fun c => if c = "validateExternalAccountBinding" then callsValidateEAB else [c]) := by
+  decide
 
 end Verif.EAB
